@@ -2,7 +2,7 @@
 from props import _core, _api
 
 LEVEL = "proof"
-LEAN_MODULES = ["Props.C10"]
+LEAN_MODULES = ["Props.C10", "Props.C10more"]
 OPS = ["normalize", "normalize1", "from_man_exp", "from_int", "pos", "neg", "abs", "add", "sub", "mul", "gmul", "div",
        "mul_int", "gmul_int", "rdiv_int", "from_rational", "sqrt", "mod", "pow_int", "perturb", "floor", "ceil", "nint",
        "frac", "hypot", "sum"]
